@@ -130,6 +130,43 @@ func ZZ_C13_agree() {
 	vReach("end")
 }
 
+// ZZ_C13_history: no state leaks from one query into the next - after any query on filter A
+// (matching or not), every strategy on a second filter B (same key and parameters) still agrees
+// with B.Match.
+func ZZ_C13_history() {
+	p, m := zzParams(1)
+	var key [KeySize]byte
+	copy(key[:], vBytes("key", KeySize))
+	fa, err := BuildGCSFilter(p, m, key, zzItems("a", 1))
+	if err != nil {
+		return
+	}
+	fb, err := BuildGCSFilter(p, m, key, zzItems("b", 1))
+	if err != nil {
+		return
+	}
+	q := zzItems("q", 1)
+	switch vCase("first", 0, 3) {
+	case 0:
+		fa.HashMatchAny(key, q)
+	case 1:
+		fa.MatchAny(key, q)
+	case 2:
+		fa.ZipMatchAny(key, q)
+	case 3:
+		fa.Match(key, q[0])
+	}
+	want, err0 := fb.Match(key, q[0])
+	zip, err1 := fb.ZipMatchAny(key, q)
+	hash, err2 := fb.HashMatchAny(key, q)
+	anyq, err3 := fb.MatchAny(key, q)
+	vAssert("no-errors", err0 == nil && err1 == nil && err2 == nil && err3 == nil)
+	vAssert("zip-agrees-after-history", zip == want)
+	vAssert("hash-agrees-after-history", hash == want)
+	vAssert("matchany-agrees-after-history", anyq == want)
+	vReach("end")
+}
+
 func zzName(prefix string, i int) string {
 	return prefix + string(rune('0'+i))
 }
